@@ -4,7 +4,7 @@ Mirrors `doit/loader.py` (`load_tasks`, `_get_task_creators`, `generate_tasks`, 
 `_generate_task_from_yield`, `flat_generator`), `doit/task.py` (`dict_to_task`, `Task.__init__`, `Task.check_attr`,
 `Task.valid_attr`, `_init_deps`, `_expand_*`, `_init_getargs`) and `doit/control.py` (`TaskControl.__init__`,
 `_check_dep_names`, `set_implicit_deps`, `_get_wild_tasks`) **as they are now** (including the `fix:` commits c7a3018 dangling `calc_dep`,
-5a43f74 type-exact `check_attr`, 379257a tuple `uptodate`, 5cc6c19 `basename` check, eeaaa80 command-named `basename`).
+5a43f74 type-exact `check_attr`, 379257a tuple `uptodate`, 5cc6c19 `basename` check, eeaaa80 command-named `basename`, dd215ad group attributes merge / duplicate yields).
 
 Abstraction.  A task-dict value is its top-level Python type plus the facts the code depends on: `isinstance`,
 `==`-membership in the accepted-values tuple (`1 == True`, `1.0 == 1`, `0 == False`), truthiness, hashability.
@@ -308,11 +308,25 @@ def yieldSub (tasks : Tasks) (d0 : TDict) (base nv : RawVal) (nf bf : Name) : R 
   | .error e => .error e
   | .ok sub => afterSub tasks base (fullName base nv nf bf) sub
 
-/-- `name is None`: attributes of the group task -/
-def yieldGroupAttrs (tasks : Tasks) (d0 : TDict) (base : RawVal) : R Tasks :=
+/-- `name is None`: attributes of the group task, before the fix dd215ad (pinned): whatever was stored under the
+    name is replaced -/
+def yieldGroupAttrsPinned (tasks : Tasks) (d0 : TDict) (base : RawVal) : R Tasks :=
   match dictToTask (put (put d0 .name base) .actions .none) with
   | .error e => .error e
   | .ok g => .ok (insert tasks g.name { g with hasSubtask := true })
+
+/-- `name is None`: attributes of the group task (dd215ad): an existing group task hands over its `task_dep` (the
+    dict's own `task_dep` first, then the sub-tasks yielded so far); an existing task that is not a group is a
+    duplicated definition -/
+def yieldGroupAttrs (tasks : Tasks) (d0 : TDict) (base : RawVal) : R Tasks :=
+  match dictToTask (put (put d0 .name base) .actions .none) with
+  | .error e => .error e
+  | .ok g =>
+    match lookup tasks g.name with
+    | none => .ok (insert tasks g.name { g with hasSubtask := true })
+    | some ex =>
+      if !ex.hasSubtask then .error .invalidTask
+      else .ok (insert tasks g.name { g with hasSubtask := true, taskDep := g.taskDep ++ ex.taskDep })
 
 /-- not a sub-task -/
 def yieldPlain (tasks : Tasks) (d0 : TDict) (bn : RawVal) : R Tasks :=
@@ -348,10 +362,17 @@ def yieldDictPinned (tasks : Tasks) (fn : Name) (d : TDict) (nf bf : Name) : R T
 def yieldDict (tasks : Tasks) (fn : Name) (d : TDict) (nf bf : Name) : R Tasks :=
   if !basenameOk d then .error .invalidTask else yieldDictPinned tasks fn d nf bf
 
+/-- one yielded item (`generate_tasks` loop body); a Task object whose name is already defined is a duplicated
+    definition (dd215ad) -/
 def yieldOne (fn : Name) (tasks : Tasks) : Yielded → R Tasks
   | .other => .error .invalidTask
-  | .task t => .ok (insert tasks t.name t)
+  | .task t => if hasKey tasks t.name then .error .invalidTask else .ok (insert tasks t.name t)
   | .dict d nf bf => yieldDict tasks fn d nf bf
+
+/-- pinned (before dd215ad): a yielded Task object replaced whatever was stored under its name -/
+def yieldOnePinned (fn : Name) (tasks : Tasks) : Yielded → R Tasks
+  | .task t => .ok (insert tasks t.name t)
+  | y => yieldOne fn tasks y
 
 def yieldAll (fn : Name) : Tasks → List Yielded → R Tasks
   | tasks, [] => .ok tasks
@@ -478,9 +499,7 @@ def yieldedDicts : List Yielded → List TDict
   | .dict d _ _ :: ys => d :: yieldedDicts ys
   | _ :: ys => yieldedDicts ys
 
-/-- keys that a generator's yields *replace* (finding `yield-replaces-task`): a `name: None` dict or a Task object
-    arriving when its key is already in the generator's task dictionary.  `keysAfter` mirrors the keys that
-    `_generate_task_from_yield` inserts when every step succeeds. -/
+/-- the keys that `_generate_task_from_yield` inserts for a yielded item when the step succeeds -/
 def yieldKeys (fn : Name) : Yielded → List Name
   | .other => []
   | .task t => [t.name]
@@ -491,18 +510,8 @@ def yieldKeys (fn : Name) : Yielded → List Name
       else [fmtOf (baseOf fn d) bf, fullName (baseOf fn d) nv nf bf]
     | none => [fmtOf (bnOf d) bf]
 
-def isReplacer : Yielded → Bool
-  | .task _ => true
-  | .dict d _ _ => get (del d .basename) .name = some .none
-  | .other => false
-
-def noReplace (fn : Name) : List Name → List Yielded → Bool
-  | _, [] => true
-  | seen, y :: ys =>
-    !(isReplacer y && (yieldKeys fn y).any seen.contains) && noReplace fn (seen ++ yieldKeys fn y) ys
-
-/-- no generator replaces a task it has already defined, and Task objects handed over by creators are plain
-    (not marked as sub-task or group by hand) -/
+/-- Task objects handed over by creators are plain, i.e. not marked as sub-task or group by hand (the loader
+    passes Task objects through unprocessed) -/
 def plainTask (t : Task) : Bool := t.subtaskOf.isNone && !t.hasSubtask
 
 def yieldedTasks : List Yielded → List Task
@@ -510,12 +519,12 @@ def yieldedTasks : List Yielded → List Task
   | .task t :: ys => t :: yieldedTasks ys
   | _ :: ys => yieldedTasks ys
 
-def resultTidy (fn : Name) : Result → Bool
-  | .gen items => noReplace fn [] (Gen.flattenList items) && (yieldedTasks (Gen.flattenList items)).all plainTask
+def resultPlain : Result → Bool
+  | .gen items => (yieldedTasks (Gen.flattenList items)).all plainTask
   | .task t => plainTask t
   | _ => true
 
-def Tidy (cs : List Creator) : Bool := cs.all (fun c => resultTidy c.name c.result)
+def PlainObjs (cs : List Creator) : Bool := cs.all (fun c => resultPlain c.result)
 
 inductive Outcome where
   | tasks (ts : List Task)
